@@ -231,6 +231,24 @@ def register(op):
         named = arg[4] if len(arg) > 4 else False
         fresh()
         cs = [cplx(s, name=f"X{i}") for i, s in enumerate(cspecs)]
+        if named == "shared":
+            # the first macrostate is automatically named; the second, over another member set, is named after one of ITS
+            # members that also belongs to the first (but is not the first one's name): that name is free, so it is created
+            m1 = MAC[k]([cs[i] for i in set1])
+            cand = [cs[i] for i in set2 if i in set1 and cs[i].name != m1.name]
+            if not cand:
+                m1 = None
+                fresh()
+                return ["refused", False]
+            try:
+                m2 = MAC[k]([cs[i] for i in set2], name=cand[0].name)
+                res = ["shared", m2 is m1, m2.name == cand[0].name and m2.representative is cand[0], len(m2) == len(set(set2)), m1 != m2]
+            except bc.SingletonError as e:
+                res = ["shared-refused", e.existing is m1]
+            m1 = m2 = None
+            del cs, cand
+            fresh()
+            return res
         if named:
             # both macrostates carry user-chosen names (their canonically LARGEST members): different member sets, one possibly
             # a prefix of the other in canonical order, are different objects that compare unequal
